@@ -10,9 +10,8 @@ into the WSGI environ; every probe is executed twice: with that callback and wit
 The oracle never looks at mapproxy's coverage / mask code: geometry is transformed with pyproj (vertex-wise and densified),
 rasterised with shapely on pixel centres after geometric buffering in pixel space, layers are recognised by colour
 family, upstream calls by their LAYERS / QUERY_LAYERS parameter."""
-import io
+import json
 import math
-import re
 import shutil
 import sys
 import urllib.parse
@@ -25,9 +24,57 @@ from vlib import core, upstream, scenario
 PID = 'C10'
 LEVEL = 'exploration'
 BUDGET_S = {'quick': 42, 'thorough': 660}
-FLOORS = {'quick': {}, 'thorough': {}}
-RULE = "tbd"
-ASSUMPTIONS = []
+FLOORS = {
+    'quick': {'scenarios': 190, 'requests': 900, 'denied_checks': 400, 'no_upstream_for_denied_checks': 400,
+              'denied_layer_pixel_checks': 30, 'rejected_as_expected': 250, 'must_be_clear_pixels': 7000000,
+              'must_keep_pixels': 2500000, 'limited_map_checks': 160, 'limited_tile_checks': 120, 'featureinfo_inside': 50,
+              'featureinfo_outside': 90, 'featureinfo_denied': 100, 'svc_wms_map': 330, 'svc_wms_fi': 140,
+              'family_tms': 130, 'family_wmts': 85, 'family_kml': 90, 'svc_wmts_fi_kvp': 45, 'svc_wmts_fi_rest': 40},
+    'thorough': {'scenarios': 3000, 'requests': 24000, 'denied_checks': 10000, 'no_upstream_for_denied_checks': 10000,
+                 'denied_layer_pixel_checks': 800, 'rejected_as_expected': 6000, 'must_be_clear_pixels': 180000000,
+                 'must_keep_pixels': 60000000, 'limited_map_checks': 4000, 'limited_tile_checks': 3000,
+                 'featureinfo_inside': 1200, 'featureinfo_outside': 2200, 'featureinfo_denied': 2500, 'svc_wms_map': 8000,
+                 'svc_wms_fi': 3500, 'family_tms': 3000, 'family_wmts': 2000, 'family_kml': 2000, 'svc_wmts_fi_kvp': 1000,
+                 'svc_wmts_fi_rest': 1000}}
+RULE = ("case = one generated scenario (layer tree shape flat / group / nested / group with own sources / nested group with own "
+        "sources; per leaf: cascaded WMS with supported_srs, png cache or jpeg cache on a 3857 / 4326 / 25832 grid with origin "
+        "ll or ul, stored or not; nearest or bilinear resampling) with 5 (quick) / 8 (thorough) probes. probe = one request "
+        "(WMS GetMap 1-4 layer or group names, png transparent / png bgcolor / jpeg, 1.1.1 / 1.3.0, three SRS; WMS "
+        "GetFeatureInfo; TMS, /tiles, /tiles?origin=nw, WMTS KVP, WMTS REST, KML tile, KML document; WMTS GetFeatureInfo KVP / "
+        "REST) executed with a generated authorize callback result (full / none / unauthenticated / partial with per-layer map, "
+        "featureinfo, tile flags true / false / missing, per-layer and request-wide limited_to as bbox list / WKT lines / "
+        "shapely geometry of 14 shape classes in the request SRS or another one) and again with an all-allowing callback. "
+        "evaluations = probes judged (status + upstream attribution + pixel / info-text obligations) plus feature-info gate "
+        "judgements; distinct = (service, callback class, geometry class incl. form and SRS relation, output format, tree "
+        "shape, number of requested names | cache kind, grid, origin); non-trivial = callback answered 'partial'. "
+        "must_be_clear_pixels / must_keep_pixels count pixels on which the clear / keep obligation was actually evaluated.")
+ASSUMPTIONS = [
+    "U / I are the union / intersection of the geometry transformed vertex by vertex (pyproj) and transformed after "
+    "densifying every edge to 1/200 of its extent; rasterised with shapely on pixel centres after geometric buffering in "
+    "pixel units. A pixel 'lies more than one pixel outside' when its CENTRE is more than 1.5 px from U (1 px of the property "
+    "+ half a pixel for the pixel's own extent; PIL draws polygon outlines through integer pixel indices, which alone puts "
+    "centres up to ~1.1 px from the true edge); it is 'well inside' when its centre is more than 2 px inside I; feature-info "
+    "clicks are judged inside / outside at 1 px. Everything between is don't-care.",
+    "clear obligation: alpha 0 (responses with alpha) or exactly the BGCOLOR (png without alpha) or within 56 levels of the "
+    "BGCOLOR / white (jpeg; 2 more don't-care pixels and 3x3 solid blocks only). keep obligation: equal to the response of "
+    "the same request under an all-allowing callback within 2 levels (lossless paths) or 72 levels (jpeg output where only "
+    "solid 5x5 blocks count, jpeg caches, bilinear resampling), evaluated where the unrestricted response shows a layer "
+    "(recognised by colour family) that is permitted and unlimited or limited with the pixel well inside.",
+    "an explicitly requested denied WMS layer must give 403 (401 for 'unauthenticated'); a denied layer reached through a group "
+    "must vanish (no upstream call, no pixel of its colour family, no info text); 'none' for a request naming only groups may "
+    "give 403 or a blank 200. For GetFeatureInfo with QUERY_LAYERS != LAYERS either rejection or silent removal is accepted.",
+    "for tile services a layer-level and a request-wide limited_to both bind (property text: 'a layer or a whole request'); "
+    "the violation mechanism carries role=global_with_layer_limit when only the request-wide one is broken.",
+    "feature info of a permitted layer whose click lies well inside every geometry is expected in the response (mirror of "
+    "the keep clause); its absence is reported under its own clause featureinfo_inside_not_returned.",
+    "HTTP 400 / 5xx answers are never a leak: counted as don't-care error_response_<code> (seen: invalid MultiPolygon from "
+    "overlapping WKT lines raises a GEOS TopologyException -> 500).",
+    "tile address -> rectangle is computed from the configured grid (square bbox, factor-2 levels): TMS / KML rows from the "
+    "bottom, WMTS and origin=nw from the top, /tiles without origin parameter in the grid's own origin; whether those "
+    "conventions are honoured for images is C02's subject, here the same rectangle serves both runs.",
+    "upstream sources are pinned to png requests; all sources carry supported_srs (mixing sources with and without "
+    "supported_srs in one GetMap raises AttributeError in SupportedSRS.__eq__ -> 500, not this property).",
+]
 
 # ---------------------------------------------------------------------------------------------------------------------
 # LAYERS upstream
@@ -51,9 +98,11 @@ def _hash(k, i, j, o, s):
     return h
 
 
-def layer_pattern(k, srs, bbox, size):
-    """RGBA uint8 (h, w, 4) of upstream layer k for the request rectangle; alpha in {0, 255}; ground anchored cells of
-    8 * 2^round(log2(res)) SRS units"""
+def layer_pattern(k, srs, bbox, size, semi=False):
+    """RGBA uint8 (h, w, 4) of upstream layer k for the request rectangle; ground anchored cells of 8 * 2^round(log2(res))
+    SRS units; 5 of 8 cells opaque, the others empty; with `semi` 1 of 8 cells is half transparent (alpha 128).  At most one
+    layer of a scenario is `semi` (name suffix 's'), so a stack never blends more than two colours and a blend of two
+    families always has a mid-range channel (never classified)"""
     w, h = size
     rx = (bbox[2] - bbox[0]) / w
     ry = (bbox[3] - bbox[1]) / h
@@ -67,7 +116,6 @@ def layer_pattern(k, srs, bbox, size):
     J = np.broadcast_to(j[:, None], (h, w))
     hh = _hash(k, I, J, o, SRS_ID.get(srs.upper(), 9))
     out = np.zeros((h, w, 4), dtype=np.uint8)
-    opaque = (hh & np.uint64(7)) < np.uint64(5)
     hi = (190 + ((hh >> np.uint64(8)) % np.uint64(61))).astype(np.uint8)
     hi2 = (190 + ((hh >> np.uint64(20)) % np.uint64(61))).astype(np.uint8)
     lo = ((hh >> np.uint64(32)) % np.uint64(51)).astype(np.uint8)
@@ -77,8 +125,10 @@ def layer_pattern(k, srs, bbox, size):
     los = [lo, lo2, lo2]
     for c in range(3):
         out[..., c] = his[c] if fam[c] else los[c]
-    out[..., 3] = np.where(opaque, 255, 0).astype(np.uint8)
-    out[~opaque, :3] = 255
+    sel = hh & np.uint64(7)
+    alpha = np.where(sel < np.uint64(5), 255, np.where(sel == np.uint64(5), 128 if semi else 0, 0)).astype(np.uint8)
+    out[..., 3] = alpha
+    out[alpha == 0, :3] = 255
     return out
 
 
@@ -101,7 +151,7 @@ class LayersWMS(object):
         try:
             q = upstream.parse_getmap(call)
             names = [n for n in q['layers'] if n]
-            ks = [int(n[1:]) for n in names]
+            ks = [(int(n[1:].rstrip('s')), n.endswith('s')) for n in names]
         except Exception as ex:
             call.extra['bad'] = repr(ex)
             return upstream.Resp(('<ServiceExceptionReport><ServiceException>bad request %s</ServiceException></ServiceExceptionReport>' % ex).encode(),
@@ -126,19 +176,21 @@ class LayersWMS(object):
             return upstream.Resp(b'<ServiceExceptionReport><ServiceException>size</ServiceException></ServiceExceptionReport>',
                                  'application/vnd.ogc.se_xml', 200)
         acc = None
-        for k in ks:
-            img = layer_pattern(k, q['srs'] or '', q['bbox'], q['size'])
+        for k, semi in ks:
+            img = layer_pattern(k, q['srs'] or '', q['bbox'], q['size'], semi)
             if acc is None:
                 acc = img
-            else:
-                m = img[..., 3] == 255
-                acc = acc.copy()
-                acc[m] = img[m]
+            else:       # 'over'
+                a = img[..., 3:4].astype(np.float64) / 255.0
+                b = acc[..., 3:4].astype(np.float64) / 255.0
+                oa = a + b * (1 - a)
+                rgb = (img[..., :3] * a + acc[..., :3] * b * (1 - a)) / np.maximum(oa, 1e-9)
+                acc = np.concatenate([np.where(oa > 0, rgb, 255.0), oa * 255.0], axis=2).round().astype(np.uint8)
         fmt = (q['format'] or 'image/png').split(';')[0]
         if not q['transparent'] or 'jpeg' in fmt:
-            bg = np.array(_bgcolor(q['bgcolor']), dtype=np.uint8)
-            rgb = acc[..., :3].copy()
-            rgb[acc[..., 3] == 0] = bg
+            bg = np.array(_bgcolor(q['bgcolor']), dtype=np.float64)
+            a = acc[..., 3:4].astype(np.float64) / 255.0
+            rgb = (acc[..., :3] * a + bg * (1 - a)).round().astype(np.uint8)
             return upstream.Resp(upstream.encode(rgb, fmt), fmt)
         return upstream.Resp(upstream.encode(acc, 'image/png'), 'image/png')
 
@@ -184,8 +236,8 @@ def gen_scenario(rng):
         leaf = {'up': 'u%d' % idx, 'kind': kind, 'host': rng.choice(['lay', 'lay', 'lay2'])}
         if kind == 'direct':
             # (a source without supported_srs next to one with it makes combined_layers() raise: side observation)
-            leaf['supported_srs'] = rng.choice([list(WMS_SRS), list(WMS_SRS), ['EPSG:4326'], ['EPSG:25832'], ['EPSG:3857'],
-                                                ['EPSG:4326', 'EPSG:3857']])
+            leaf['supported_srs'] = rng.choice([list(WMS_SRS)] * 5 + [['EPSG:4326'], ['EPSG:25832'], ['EPSG:3857'],
+                                                                      ['EPSG:4326', 'EPSG:3857']])
         else:
             leaf['grid'] = rng.choice(sorted(GRIDS))
             leaf['origin'] = rng.choice(['ll', 'ul'])
@@ -193,6 +245,8 @@ def gen_scenario(rng):
             leaf['meta'] = rng.choice([[1, 1], [1, 1], [2, 2]])
             leaf['meta_buffer'] = rng.choice([0, 0, 16])
         leaves[name] = leaf
+    semi = rng.choice(sorted(n for n, lf in leaves.items() if lf['kind'] != 'cache_jpeg'))
+    leaves[semi]['up'] += 's'
     return {'shape': shape, 'leaves': leaves, 'resampling': rng.choice(['nearest', 'nearest', 'nearest', 'bilinear'])}
 
 
@@ -201,7 +255,10 @@ def build(spec, d):
     tree = SHAPES[spec['shape']]
     used_grids = set()
     for name, leaf in spec['leaves'].items():
-        src = {'type': 'wms', 'req': {'url': 'http://%s/service?' % leaf['host'], 'layers': leaf['up'], 'transparent': True},
+        # format pinned to png: with the client's FORMAT=image/jpeg forwarded, every cascaded layer would come back opaque and
+        # hide the layers below it when requested alone, but not when combined with its neighbours into one upstream request
+        src = {'type': 'wms', 'req': {'url': 'http://%s/service?' % leaf['host'], 'layers': leaf['up'], 'transparent': True,
+                                      'format': 'image/png'},
                'wms_opts': {'featureinfo': True, 'version': '1.1.1'}}
         if leaf.get('supported_srs'):
             src['supported_srs'] = list(leaf['supported_srs'])
@@ -654,6 +711,20 @@ def gen_wms_probe(rng, spec, fi=False):
            'bgcolor': rng.choice(BGCOLORS), 'version': rng.choice(['1.1.1', '1.1.1', '1.3.0'])}
     relevant = resolve(tree, layers)
     auth = gen_auth(rng, spec, frame, relevant)
+    implicit = [lf for lf in relevant if lf not in layers]
+    if auth['mode'] == 'partial' and implicit and rng.random() < 0.4:
+        # deny a layer that is only requested through its group: must vanish silently
+        lf = rng.choice(implicit)
+        how = rng.choice(['missing', 'false', 'no_key'])
+        if how == 'missing':
+            auth['layers'].pop(lf, None)
+        else:
+            e = auth['layers'].setdefault(lf, {})
+            for f in ('map', 'featureinfo'):
+                if how == 'false':
+                    e[f] = False
+                else:
+                    e.pop(f, None)
     probe = {'service': 'wms_fi' if fi else 'wms_map', 'req': req, 'auth': auth,
              'order': rng.choice(['auth_first', 'ref_first'])}
     if fi:
@@ -807,6 +878,8 @@ FAM_CODE = [f[0] * 4 + f[1] * 2 + f[2] for f in FAMILIES]
 PNG_TOL = 2
 JPEG_TOL = 72          # restricted vs. reference, both jpeg encoded by the server: ringing of a clipped edge inside the MCU
 JPEG_BG_TOL = 56
+CLEAR_PX = 1.5         # pixel CENTRE farther than this from U => the whole pixel lies more than one pixel outside
+KEEP_PX = 2.0          # pixel centre deeper than this inside I => must be kept
 JPEG_EXTRA = 2         # extra don't-care pixels around a clip edge in jpeg output
 
 
@@ -849,6 +922,12 @@ def cb_class(auth, leaves, feature):
     den = any(not auth.permitted(lf, feature) for lf in leaves)
     lim = any(auth.layer_limit(lf) for lf in leaves if auth.permitted(lf, feature))
     return 'partial:%s%s%s' % ('denied' if den else 'allowed', '+layer_limit' if lim else '', '+global_limit' if auth.global_limit() else '')
+
+
+def gmech(gates, frame):
+    """mechanism-level description of the geometries involved"""
+    return {'srs_rel': 'other' if any(g['srs'] != frame.srs for g in gates) else 'same',
+            'island_before_hole': any(g['cls'] == 'hole_island_first' for g in gates)}
 
 
 def first_bad(mask):
@@ -899,7 +978,6 @@ def exec_probe(ctx, probe):
 
 
 def viol(ctx, probe, mech, detail):
-    import json
     case = {'i': ctx.case.get('i'), 'scen': ctx.spec, 'probes': [probe]}
     a = json.dumps(probe['auth'], default=str)
     ctx.run.violation(mech, case, '%s | request %s | callback result %s' % (detail, ctx.url, a if len(a) < 1800 else a[:1800] + '...'))
@@ -936,7 +1014,7 @@ def check_status(ctx, probe, svc, r, exp, denied):
 
 def layer_meta(ctx, name):
     leaf = ctx.spec['leaves'][name]
-    k = int(leaf['up'][1:])
+    k = int(leaf['up'][1:].rstrip('s'))
     return leaf, leaf['up'], FAM_CODE[k % len(FAM_CODE)]
 
 
@@ -983,6 +1061,8 @@ def judge_wms_map(ctx, probe, auth, r, ref, calls):
         denied, [lf for lf in denied if lf in explicit])
     if not check_status(ctx, probe, 'wms_map', r, exp, why if (denied or mode != 'partial') else ''):
         return
+    if mode == 'none':
+        run.count('wms_map_authorized_none_answered_%d' % r.code)
     if r.code != 200:
         run.hit('rejected_as_expected')
         if called:
@@ -1003,7 +1083,7 @@ def judge_wms_map(ctx, probe, auth, r, ref, calls):
     codes = classify(arr)
     visible = arr[..., 3] > 0
     bg = np.array(_bgcolor(req['bgcolor']), dtype=np.int16)
-    mech0 = {'service': 'wms_map', 'out': fmt, 'lossy_path': bool(lossy)}
+    mech0 = {'service': 'wms_map', 'out': fmt}
 
     def is_code(c):
         m = (codes == c) & visible
@@ -1023,8 +1103,8 @@ def judge_wms_map(ctx, probe, auth, r, ref, calls):
                  '%d pixels show the colours of layer %s (%s), first at %r = %r' % (
                      n, name, 'denied' if name in denied else 'not requested', first_bad(m), arr[first_bad(m)[1], first_bad(m)[0]].tolist()))
     # --- geometry obligations -----------------------------------------------------------------------------------------
-    d_clear = 1.0 + (JPEG_EXTRA if out_jpeg else 0.0)
-    d_keep = 2.0 + (JPEG_EXTRA if out_jpeg else 0.0)
+    d_clear = CLEAR_PX + (JPEG_EXTRA if out_jpeg else 0.0)
+    d_keep = KEEP_PX + (JPEG_EXTRA if out_jpeg else 0.0)
     oracles = {}
     usable = True
     for lf, g in limits:
@@ -1045,9 +1125,8 @@ def judge_wms_map(ctx, probe, auth, r, ref, calls):
         n = int(m.sum())
         if n > thr:
             p = first_bad(m)
-            viol(ctx, probe, dict(mech0, clause='limited_layer_visible_outside', role='layer', form=g['form'],
-                                  srs_rel='same' if g['srs'] == frame.srs else 'other'),
-                 '%d pixels more than %.0f px outside the %s geometry (%s) of layer %s show its colours, first at %r = %r' % (
+            viol(ctx, probe, dict(mech0, clause='limited_layer_visible_outside', role='layer', **gmech([g], frame)),
+                 '%d pixels more than %.1f px outside the %s geometry (%s) of layer %s show its colours, first at %r = %r' % (
                      n, d_clear, g['cls'], g['srs'], lf, p, arr[p[1], p[0]].tolist()))
     # pixels where nothing may show: outside the global geometry, or outside the geometries of all permitted layers
     must_bg = np.zeros((h, w), dtype=bool)
@@ -1067,14 +1146,15 @@ def judge_wms_map(ctx, probe, auth, r, ref, calls):
         else:
             tol = JPEG_BG_TOL if out_jpeg else 0
             badm = must_bg & (np.abs(arr[..., :3].astype(np.int16) - bg).max(axis=2) > tol)
+            if out_jpeg:
+                badm = solid3(badm)
         n = int(badm.sum())
         if n > 0:
             p = first_bad(badm)
             role = 'global' if go_g is not None else ('all_layers_limited' if allowed else 'all_layers_denied')
             g = glimit or (limits[0][1] if limits else {'form': None, 'srs': frame.srs, 'cls': None})
-            viol(ctx, probe, dict(mech0, clause='outside_not_background', role=role, form=g['form'],
-                                  srs_rel='same' if g['srs'] == frame.srs else 'other'),
-                 '%d of %d pixels that lie more than %.0f px outside the permitted area are not %s, first at %r = %r' % (
+            viol(ctx, probe, dict(mech0, clause='outside_not_background', role=role, **gmech([g] if g['cls'] else [], frame)),
+                 '%d of %d pixels that lie more than %.1f px outside the permitted area are not %s, first at %r = %r' % (
                      n, nbg, d_clear, 'fully transparent' if has_alpha else 'the background colour %r' % (bg.tolist(),), p,
                      arr[p[1], p[0]].tolist()))
     run.hit('must_be_clear_pixels', nclear + nbg)
@@ -1091,35 +1171,53 @@ def judge_wms_map(ctx, probe, auth, r, ref, calls):
         return
     rcodes = classify(rarr)
     rvis = rarr[..., 3] > 0
-    keep = np.zeros((h, w), dtype=bool)
+    diff = np.abs(arr.astype(np.int16) - rarr.astype(np.int16)).max(axis=2)
+    # a jpeg cache answers its first request from the not yet encoded upstream image, later ones from the stored jpeg
+    jpeg_src = any(ctx.spec['leaves'][lf]['kind'] == 'cache_jpeg' for lf in allowed)
+    # bilinear / bicubic resampling blends every layer's cell edges with what lies below: loose tolerance as well
+    tol = JPEG_TOL if (out_jpeg or jpeg_src or ctx.spec['resampling'] != 'nearest') else PNG_TOL
+    nkeep = 0
     for lf in allowed:
+        # where the unrestricted response shows layer lf (all layers are opaque or absent per pixel) and lf as well as the
+        # whole request is permitted there, the restricted response must show the same
         leaf, upn, code = layer_meta(ctx, lf)
+        if out_jpeg and upn.endswith('s'):
+            # jpeg has no alpha: the unrestricted response shows half transparent cells at full strength, a clipped one
+            # blended with the background -> not comparable
+            run.dc('jpeg_output_of_half_transparent_layer')
+            continue
         m = (rcodes == code) & rvis
         if lossy:
             m = solid3(m)
+        gates = []
         if lf in oracles:
             m = m & oracles[lf].inside(d_keep)
-        keep |= m
-    if go_g is not None:
-        keep &= go_g.inside(d_keep)
-    nkeep = int(keep.sum())
-    run.hit('must_keep_pixels', nkeep)
-    if nkeep:
-        diff = np.abs(arr.astype(np.int16) - rarr.astype(np.int16)).max(axis=2)
-        # a jpeg cache answers its first request from the not yet encoded upstream image, later ones from the stored jpeg
-        jpeg_src = any(ctx.spec['leaves'][lf]['kind'] == 'cache_jpeg' for lf in allowed)
-        tol = JPEG_TOL if (out_jpeg or jpeg_src) else PNG_TOL
-        badm = keep & (diff > tol)
+            gates.append(auth.layer_limit(lf))
+        if go_g is not None:
+            m = m & go_g.inside(d_keep)
+            gates.append(glimit)
+        nk = int(m.sum())
+        nkeep += nk
+        if not nk:
+            continue
+        badm = m & (diff > tol)
+        if out_jpeg:
+            # chroma of a jpeg pixel bleeds 1-2 px from neighbours that legitimately changed (other layers clipped or
+            # removed): only solid 5x5 blocks of changed pixels count
+            badm = solid3(solid3(badm))
         n = int(badm.sum())
-        ctx.maxdiff = max(ctx.maxdiff, int(diff[keep].max())) if out_jpeg else ctx.maxdiff
+        if out_jpeg and not n:
+            ctx.maxdiff = max(ctx.maxdiff, int(diff[m].max()))
         if n > 0:
             p = first_bad(badm)
-            g = glimit or (limits[0][1] if limits else {'form': None, 'srs': frame.srs, 'cls': None})
-            viol(ctx, probe, dict(mech0, clause='inside_content_lost', role='global' if glimit else ('layer' if limits else 'none'),
-                                  form=g['form'], srs_rel='same' if g['srs'] == frame.srs else 'other', gcls=g['cls']),
-                 '%d of %d pixels that lie more than %.0f px inside the permitted area differ from the unrestricted response '
-                 'by more than %d, first at %r: restricted %r unrestricted %r' % (
-                     n, nkeep, d_keep, tol, p, arr[p[1], p[0]].tolist(), rarr[p[1], p[0]].tolist()))
+            role = '+'.join((['layer'] if lf in oracles else []) + (['global'] if go_g is not None else [])) or 'none'
+            viol(ctx, probe, dict(mech0, clause='inside_content_lost', role=role,
+                                  alpha='partial' if 0 < rarr[p[1], p[0], 3] < 255 else 'opaque', **gmech(gates, frame)),
+                 '%d of %d pixels of layer %s that lie more than %.0f px inside the permitted area (%r) differ from the '
+                 'unrestricted response by more than %d, first at %r: restricted %r unrestricted %r' % (
+                     n, nk, lf, d_keep, [(gg['cls'], gg['form'], gg['srs']) for gg in gates], tol, p, arr[p[1], p[0]].tolist(),
+                     rarr[p[1], p[0]].tolist()))
+    run.hit('must_keep_pixels', nkeep)
     if len(run.samples) < 2 and (limits or glimit) and nkeep and (nclear + nbg):
         run.sample({'service': 'wms_map', 'url': ctx.url, 'callback_result': probe['auth'], 'status': r.code,
                     'must_be_clear_pixels': nclear + nbg, 'must_keep_pixels': nkeep, 'upstream_layers_called': sorted(called)})
@@ -1176,7 +1274,7 @@ def judge_fi_layers(ctx, probe, svc, auth, r, calls, frame, leaves, feature, ext
             if present:
                 k = pcs.index('outside')
                 g = gates[k]
-                viol(ctx, probe, dict(extra_mech, service=svc, clause='featureinfo_outside_returned', role=roles[k], form=g['form'],
+                viol(ctx, probe, dict(extra_mech, service=svc, clause='featureinfo_outside_returned', role=roles[k],
                                       srs_rel='same' if g['srs'] == frame.srs else 'other'),
                      'click pixel %r lies more than 1 px outside the %s geometry (%s, %s) of %s, but the response carries '
                      'the info of layer %s: %r' % (req['pos'], g['cls'], g['form'], g['srs'], roles[k], lf, r.body[:200]))
@@ -1185,8 +1283,8 @@ def judge_fi_layers(ctx, probe, svc, auth, r, calls, frame, leaves, feature, ext
             run.hit('featureinfo_inside')
             if not present:
                 g = gates[0]
-                viol(ctx, probe, dict(extra_mech, service=svc, clause='featureinfo_inside_not_returned', role=roles[0], form=g['form'],
-                                      srs_rel='same' if g['srs'] == frame.srs else 'other'),
+                viol(ctx, probe, dict(extra_mech, service=svc, clause='featureinfo_inside_not_returned', role='+'.join(roles),
+                                      **gmech(gates, frame)),
                      'click pixel %r lies more than 1 px inside every geometry (%r) that limits layer %s, but its info is '
                      'missing: %r (upstream feature info calls: %r)' % (
                          req['pos'], [(gg['cls'], gg['form'], gg['srs']) for gg in gates], lf, r.body[:200], sorted(fi_called)))
@@ -1266,7 +1364,7 @@ def judge_tile(ctx, probe, auth, r, ref, calls):
     cls = (svc, cb_class(auth, [name], 'tile'), tuple(geom_class(g, frame) for _, g in limits), leaf['kind'], leaf['grid'],
            leaf['origin'])
     run.judge(cls, nontrivial=(mode == 'partial'))
-    mech0 = {'service': family, 'cache': leaf['kind'], 'grid_origin': leaf['origin']}
+    mech0 = {'service': family, 'cache': leaf['kind']}
     if svc == 'kml_doc':
         mech0['document'] = True
     called = called_layers(calls)
@@ -1304,8 +1402,8 @@ def judge_tile(ctx, probe, auth, r, ref, calls):
             return
         oracles.append((role, g, go))
     lossy_out = 'jpeg' in r.content_type
-    d_clear = 1.0 + (JPEG_EXTRA if lossy_out else 0.0)
-    d_keep = 2.0 + (JPEG_EXTRA if lossy_out else 0.0)
+    d_clear = CLEAR_PX + (JPEG_EXTRA if lossy_out else 0.0)
+    d_keep = KEEP_PX + (JPEG_EXTRA if lossy_out else 0.0)
     nclear = 0
     for role, g, go in oracles:
         clear = go.outside(d_clear)
@@ -1321,9 +1419,8 @@ def judge_tile(ctx, probe, auth, r, ref, calls):
         n = int(badm.sum())
         if n:
             p = first_bad(badm)
-            viol(ctx, probe, dict(mech0, clause='outside_not_background', role=role, form=g['form'],
-                                  srs_rel='same' if g['srs'] == frame.srs else 'other'),
-                 '%d of %d tile pixels more than %.0f px outside the %s geometry (%s, %s, %s) are not %s, first at %r = %r; '
+            viol(ctx, probe, dict(mech0, clause='outside_not_background', role=role, **gmech([g], frame)),
+                 '%d of %d tile pixels more than %.1f px outside the %s geometry (%s, %s, %s) are not %s, first at %r = %r; '
                  'response is %s mode %s' % (n, nc, d_clear, role, g['cls'], g['form'], g['srs'],
                                              'fully transparent' if has_alpha else 'white', p, arr[p[1], p[0]].tolist(),
                                              r.content_type, img_mode))
@@ -1341,7 +1438,9 @@ def judge_tile(ctx, probe, auth, r, ref, calls):
     rcodes = classify(rarr)
     keep = (rcodes == code)
     if leaf['kind'] == 'cache_jpeg':
-        keep = solid3(keep)
+        # a limited tile of a jpeg layer is a png made from the tile before jpeg encoding when the tile was just created:
+        # half transparent source pixels stay half transparent there but are opaque in the jpeg -> not comparable
+        keep = solid3(keep) & ((arr[..., 3] == 0) | (arr[..., 3] == 255))
     for role, g, go in oracles:
         keep &= go.inside(d_keep)
     nkeep = int(keep.sum())
@@ -1353,12 +1452,12 @@ def judge_tile(ctx, probe, auth, r, ref, calls):
         n = int(badm.sum())
         if n:
             p = first_bad(badm)
-            g = limits[0][1] if limits else {'form': None, 'srs': frame.srs, 'cls': None}
-            viol(ctx, probe, dict(mech0, clause='inside_content_lost', role=limits[0][0] if limits else 'none', form=g['form'],
-                                  srs_rel='same' if g['srs'] == frame.srs else 'other', gcls=g['cls']),
-                 '%d of %d tile pixels more than %.0f px inside the permitted area differ from the unrestricted tile by more '
-                 'than %d, first at %r: restricted %r unrestricted %r' % (n, nkeep, d_keep, tol, p, arr[p[1], p[0]].tolist(),
-                                                                         rarr[p[1], p[0]].tolist()))
+            viol(ctx, probe, dict(mech0, clause='inside_content_lost', role='+'.join(x[0] for x in limits) or 'none',
+                                  alpha='partial' if 0 < rarr[p[1], p[0], 3] < 255 else 'opaque', **gmech([x[1] for x in limits], frame)),
+                 '%d of %d tile pixels more than %.0f px inside the permitted area (%r) differ from the unrestricted tile by more '
+                 'than %d, first at %r: restricted %r unrestricted %r' % (
+                     n, nkeep, d_keep, [(x[1]['cls'], x[1]['form'], x[1]['srs']) for x in limits], tol, p, arr[p[1], p[0]].tolist(),
+                     rarr[p[1], p[0]].tolist()))
     if len(run.samples) < 4 and limits and nkeep and nclear:
         run.sample({'service': svc, 'url': ctx.url, 'callback_result': probe['auth'], 'status': r.code, 'content_type': r.content_type,
                     'must_be_clear_pixels': nclear, 'must_keep_pixels': nkeep})
@@ -1368,8 +1467,15 @@ def judge_tile(ctx, probe, auth, r, ref, calls):
 # cases
 # ---------------------------------------------------------------------------------------------------------------------
 
+def evidence_extra(total):
+    m = total.monitors
+    return {'upstream': 'LAYERS (colour families, ground anchored cells, one half transparent layer per scenario)',
+            'pixels_judged': m.get('must_be_clear_pixels', 0) + m.get('must_keep_pixels', 0),
+            'per_service_requests': {k[4:]: v for k, v in m.items() if k.startswith('svc_')}}
+
+
 def gen_cases(run):
-    n = run.pick(1600, 40000)
+    n = run.pick(1600, 30000)
     for i in range(n):
         yield {'i': i}
 
